@@ -58,21 +58,49 @@ Proof.
     apply unless_nil in Hd; destruct t; try discriminate Hd; subst; cbn; eauto.
 Qed.
 
+Lemma tc_concat_some : forall ta tb c, tc_bin Q BVerkettet (Some ta) (Some tb) = (c, []) ->
+  exists tc, c = Some tc /\ bin_res BVerkettet ta tb = Some tc.
+Proof.
+  intros ta tb c H. cbn in H. unfold bin_res, concat_is_list.
+  destruct (negb (is_listb ta) && negb (is_listb tb) && (ty_eqb ta TText || ty_eqb tb TText)) eqn:Ec.
+  - injection H as <- Hd. unfold validate2 in Hd. apply app_nil2 in Hd as [H1 H2]. apply unless_nil in H1. apply unless_nil in H2.
+    cbn in H1, H2. destruct ta; try discriminate H1; destruct tb; try discriminate H2; cbn in *; try discriminate Ec; eauto.
+  - injection H as <- Hd. destruct (ty_eqb (lelem ta) (lelem tb)) eqn:E; [| discriminate Hd].
+    exists (TList (lelem ta)); split; auto.
+    assert (Hl : is_listb ta || is_listb tb || negb (is_text ta || is_text tb) = true).
+    { destruct ta; destruct tb; cbn in *; try discriminate Ec; reflexivity. }
+    rewrite Hl. reflexivity.
+Qed.
+
 Lemma tc_bin_some : forall o ta tb c, tc_bin Q o (Some ta) (Some tb) = (c, []) -> exists tc, c = Some tc /\ bin_res o ta tb = Some tc.
 Proof.
-  intros o ta tb c H. destruct o; cbn in H; inversion H as [[Hc Hd]]; clear H.
+  intros o ta tb c H. destruct (match o with BVerkettet => true | _ => false end) eqn:Eo.
+  { destruct o; try discriminate Eo. apply tc_concat_some; auto. }
+  destruct o; try discriminate Eo; cbn in H; inversion H as [[Hc Hd]]; clear H.
   1-7, 10-11: unfold validate2 in Hd; apply app_nil2 in Hd as [H1 H2]; apply unless_nil in H1; apply unless_nil in H2;
        destruct ta; try discriminate H1; destruct tb; try discriminate H2; cbn; eauto.
   - destruct (ty_eqb ta tb) eqn:E; [| discriminate Hd]. exists TBool; split; auto. unfold bin_res; rewrite E; auto.
   - destruct (ty_eqb ta tb) eqn:E; [| discriminate Hd]. exists TBool; split; auto. unfold bin_res; rewrite E; auto.
   - apply app_nil2 in Hd as [H1 H2]; apply unless_nil in H1; apply unless_nil in H2.
     destruct ta; try discriminate H1; unfold bin_res; cbn in H2; rewrite H2; eauto.
+  - apply app_nil2 in Hd as [H1 H2]; apply unless_nil in H1; apply unless_nil in H2. cbn in H1, H2.
+    unfold bin_res. rewrite H1, H2. destruct ta; try discriminate H1; eauto.
+  - apply app_nil2 in Hd as [H1 H2]; apply unless_nil in H1; apply unless_nil in H2. cbn in H1, H2.
+    unfold bin_res. rewrite H1, H2. destruct ta; try discriminate H1; eauto.
 Qed.
 
 Lemma tc_bin_none : forall o a b c, tc_bin Q o a b = (c, []) -> a = None \/ b = None ->
   is_eq o = true /\ a = None /\ b = None /\ q_void_eq Q = true.
 Proof.
-  intros o a b c H Hn. destruct o; cbn in H; inversion H as [[Hc Hd]]; clear H.
+  intros o a b c H Hn. destruct (match o with BVerkettet => true | _ => false end) eqn:Eo.
+  { exfalso. destruct o; try discriminate Eo. cbn in H.
+    destruct (negb (vlist a) && negb (vlist b) && (vty_eqb a (Some TText) || vty_eqb b (Some TText))).
+    - injection H as _ Hd. unfold validate2 in Hd. apply app_nil2 in Hd as [H1 H2]. apply unless_nil in H1. apply unless_nil in H2.
+      destruct Hn as [-> | ->]; cbn in *; discriminate.
+    - injection H as _ Hd. destruct Hn as [-> | ->]; cbn in Hd.
+      + destruct (velem b); cbn in Hd; discriminate Hd.
+      + destruct (velem a); cbn in Hd; discriminate Hd. }
+  destruct o; try discriminate Eo; cbn in H; inversion H as [[Hc Hd]]; clear H.
   1-7, 10-11: unfold validate2 in Hd; apply app_nil2 in Hd as [H1 H2]; apply unless_nil in H1; apply unless_nil in H2;
        destruct Hn as [-> | ->]; cbn in *; discriminate.
   - destruct a as [ta|], b as [tb|]; cbn in Hd; try discriminate Hd.
@@ -81,6 +109,10 @@ Proof.
   - destruct a as [ta|], b as [tb|]; cbn in Hd; try discriminate Hd.
     + destruct Hn as [E | E]; discriminate E.
     + apply when_nil in Hd. apply negb_false_iff in Hd. auto.
+  - apply app_nil2 in Hd as [H1 H2]; apply unless_nil in H1; apply unless_nil in H2.
+    destruct Hn as [-> | ->]; cbn in *; discriminate.
+  - apply app_nil2 in Hd as [H1 H2]; apply unless_nil in H1; apply unless_nil in H2.
+    destruct Hn as [-> | ->]; cbn in *; discriminate.
   - apply app_nil2 in Hd as [H1 H2]; apply unless_nil in H1; apply unless_nil in H2.
     destruct Hn as [-> | ->]; cbn in *; discriminate.
 Qed.
@@ -141,6 +173,31 @@ Proof.
   destruct (lookup G x) as [[| | |]|]; try discriminate H; eauto.
 Qed.
 
+Lemma pt_args_repeat : forall F G a t1 t2,
+  pt_args F G a (repeat (t1, false) (alen a)) = pt_args F G a (repeat (t2, false) (alen a)).
+Proof. intros F G; induction a as [| e a IH]; intros t1 t2; cbn; [reflexivity |]. rewrite (IH t1 t2). reflexivity. Qed.
+
+Lemma tc_slice_eq : forall F G l i j, tc_expr Q M F G (ESlice l i j) =
+  (let (a, d1) := tc_expr Q M F G l in
+   let (ti, d2) := tc_expr Q M F G i in
+   let (tj, d3) := tc_expr Q M F G j in
+   (match a with Some (TList _) | Some TText => a | _ => tj end,
+    d1 ++ d2 ++ d3 ++ unless (vseq a) DTypeOp ++ unless (vindex ti) DTypeOp ++ unless (vindex tj) DTypeOp)).
+Proof. reflexivity. Qed.
+
+Lemma tc_list_eq : forall F G e a, tc_expr Q M F G (EList e a) =
+  (let (t, d) := tc_expr Q M F G e in
+   match t with
+   | Some t0 => (Some (TList t0), d ++ when (is_listb t0) DTypeOp ++ tc_args Q M F G a (repeat (t0, false) (alen a)))
+   | None => (None, d ++ [DTypeOp])
+   end).
+Proof. reflexivity. Qed.
+
+Lemma vseq_some : forall a, vseq a = true -> exists t, a = Some t /\ seqlike t = true.
+Proof. intros [t|] H; [eauto | discriminate H]. Qed.
+Lemma vindex_some : forall a, vindex a = true -> exists t, a = Some t /\ is_index t = true.
+Proof. intros [t|] H; [eauto | discriminate H]. Qed.
+
 Lemma tc_sound : forall F G,
   (forall e v, pt_expr F G e = [] -> rs_expr G e = [] -> gde e = true -> tc_expr Q M F G e = (v, []) ->
      match v with Some t => type_of M F G e = Some t | None => callish e = true end) /\
@@ -188,6 +245,26 @@ Proof.
     destruct (assoc f F) as [[ps r]|] eqn:Ef; [| discriminate Hp].
     inversion H; subst. destruct v as [t|]; auto.
     rewrite (IH _ Hp Hr Hg H2); reflexivity.
+  - intros l IHl i IHi j IHj v Hp Hr Hg H. rewrite tc_slice_eq in H. cbn in Hp, Hr, Hg.
+    apply app_nil2 in Hp as [Hpl Hp]. apply app_nil2 in Hp as [Hpi Hpj].
+    apply app_nil2 in Hr as [Hrl Hr]. apply app_nil2 in Hr as [Hri Hrj].
+    apply andb_true_iff in Hg as [Hg Hgj]. apply andb_true_iff in Hg as [Hgl Hgi].
+    destruct (tc_expr Q M F G l) as [a d1] eqn:El. destruct (tc_expr Q M F G i) as [ti d2] eqn:Ei.
+    destruct (tc_expr Q M F G j) as [tj d3] eqn:Ej. injection H as Hv Hd.
+    apply app_nil2 in Hd as [-> Hd]. apply app_nil2 in Hd as [-> Hd]. apply app_nil2 in Hd as [-> Hd].
+    apply app_nil2 in Hd as [H1 Hd]. apply app_nil2 in Hd as [H2 H3].
+    apply unless_nil in H1. apply unless_nil in H2. apply unless_nil in H3.
+    apply vseq_some in H1 as [ta [-> Hta]]. apply vindex_some in H2 as [t2 [-> Ht2]]. apply vindex_some in H3 as [t3 [-> Ht3]].
+    specialize (IHl _ Hpl Hrl Hgl eq_refl). specialize (IHi _ Hpi Hri Hgi eq_refl). specialize (IHj _ Hpj Hrj Hgj eq_refl).
+    cbn in IHl, IHi, IHj. assert (v = Some ta) as -> by (destruct ta; try discriminate Hta; auto).
+    cbn. rewrite IHl, IHi, IHj, Hta, Ht2, Ht3. reflexivity.
+  - intros e IHe a IHa v Hp Hr Hg H. rewrite tc_list_eq in H. cbn in Hp, Hr, Hg.
+    apply app_nil2 in Hp as [Hpe Hpa]. apply app_nil2 in Hr as [Hre Hra]. apply andb_true_iff in Hg as [Hge Hga].
+    destruct (tc_expr Q M F G e) as [t d] eqn:Ee. destruct t as [t0|].
+    + injection H as <- Hd. apply app_nil2 in Hd as [-> Hd]. apply app_nil2 in Hd as [Hl Ha]. apply when_nil in Hl.
+      specialize (IHe _ Hpe Hre Hge eq_refl). cbn in IHe. rewrite (pt_args_repeat F G a TZahl t0) in Hpa.
+      cbn. rewrite IHe, Hl, (IHa _ Hpa Hra Hga Ha). reflexivity.
+    + injection H as _ Hd. apply app_nil2 in Hd as [_ Hd]. discriminate Hd.
   - intros ps Hp _ _ _; destruct ps; [reflexivity | discriminate Hp].
   - intros e IHe a IHa ps Hp Hr Hg H; cbn in Hr, Hg.
     apply app_nil2 in Hr as [Hre Hra]. apply andb_true_iff in Hg as [Hge Hga].
@@ -246,6 +323,24 @@ Proof.
   - intros f a IH t Hp Hg H; cbn in *.
     destruct (assoc f F) as [[ps r]|] eqn:Ef; [| discriminate Hp].
     injection H as Hr Hd. subst r. rewrite (IH _ Hp Hg Hd); reflexivity.
+  - intros l IHl i IHi j IHj t Hp Hg H. rewrite tc_slice_eq in H. cbn in Hp, Hg.
+    apply app_nil2 in Hp as [Hpl Hp]. apply app_nil2 in Hp as [Hpi Hpj].
+    apply andb_true_iff in Hg as [Hg Hgj]. apply andb_true_iff in Hg as [Hgl Hgi].
+    destruct (tc_expr Q M F G l) as [a d1] eqn:El. destruct (tc_expr Q M F G i) as [ti d2] eqn:Ei.
+    destruct (tc_expr Q M F G j) as [tj d3] eqn:Ej. injection H as Hv Hd.
+    apply app_nil2 in Hd as [-> Hd]. apply app_nil2 in Hd as [-> Hd]. apply app_nil2 in Hd as [-> Hd].
+    apply app_nil2 in Hd as [H1 Hd]. apply app_nil2 in Hd as [H2 H3].
+    apply unless_nil in H1. apply unless_nil in H2. apply unless_nil in H3.
+    apply vseq_some in H1 as [ta [-> Hta]]. apply vindex_some in H2 as [t2 [-> Ht2]]. apply vindex_some in H3 as [t3 [-> Ht3]].
+    assert (t = ta) as -> by (destruct ta; try discriminate Hta; inversion Hv; auto).
+    cbn. rewrite (IHl _ Hpl Hgl eq_refl), (IHi _ Hpi Hgi eq_refl), (IHj _ Hpj Hgj eq_refl), Hta, Ht2, Ht3. reflexivity.
+  - intros e IHe a IHa t Hp Hg H. rewrite tc_list_eq in H. cbn in Hp, Hg.
+    apply app_nil2 in Hp as [Hpe Hpa]. apply andb_true_iff in Hg as [Hge Hga].
+    destruct (tc_expr Q M F G e) as [t1 d] eqn:Ee. destruct t1 as [t0|].
+    + injection H as <- Hd. apply app_nil2 in Hd as [-> Hd]. apply app_nil2 in Hd as [Hl Ha]. apply when_nil in Hl.
+      rewrite (pt_args_repeat F G a TZahl t0) in Hpa.
+      cbn. rewrite (IHe _ Hpe Hge eq_refl), Hl, (IHa _ Hpa Hga Ha). reflexivity.
+    + injection H as Hv _. discriminate Hv.
   - intros ps Hp _ _; destruct ps; [reflexivity | discriminate Hp].
   - intros e IHe a IHa ps Hp Hg H; cbn in Hg.
     apply andb_true_iff in Hg as [Hge Hga].
@@ -296,6 +391,21 @@ Proof.
     + injection H as Hv Hd. apply app_nil2 in Hd as [_ Hd]; discriminate Hd.
   - intros f a IH v Hn H. rewrite tc_call_eq in *. cbn [fv_expr] in Hn. destruct (assoc f F) as [[ps r]|]; auto.
     injection H as Hv Hd; subst v. rewrite (IH _ Hn Hd); reflexivity.
+  - intros l IHl i IHi j IHj v Hn H. rewrite tc_slice_eq in *. cbn [fv_expr] in Hn.
+    destruct (tc_expr Q M F (bind G x (BVar tx)) l) as [a d1] eqn:El.
+    destruct (tc_expr Q M F (bind G x (BVar tx)) i) as [ti d2] eqn:Ei.
+    destruct (tc_expr Q M F (bind G x (BVar tx)) j) as [tj d3] eqn:Ej. injection H as Hv Hd.
+    apply app_nil2 in Hd as [-> Hd]. apply app_nil2 in Hd as [-> Hd]. apply app_nil2 in Hd as [-> Hd].
+    rewrite (IHl _ (fun Hi => Hn (in_or_app _ _ _ (or_introl Hi))) eq_refl),
+            (IHi _ (fun Hi => Hn (in_or_app _ _ _ (or_intror (in_or_app _ _ _ (or_introl Hi))))) eq_refl),
+            (IHj _ (fun Hi => Hn (in_or_app _ _ _ (or_intror (in_or_app _ _ _ (or_intror Hi))))) eq_refl).
+    subst v. rewrite Hd. reflexivity.
+  - intros e IHe a IHa v Hn H. rewrite tc_list_eq in *. cbn [fv_expr] in Hn.
+    destruct (tc_expr Q M F (bind G x (BVar tx)) e) as [t d] eqn:Ee. destruct t as [t0|].
+    + injection H as Hv Hd. apply app_nil2 in Hd as [-> Hd]. apply app_nil2 in Hd as [Hl Ha].
+      rewrite (IHe _ (fun Hi => Hn (in_or_app _ _ _ (or_introl Hi))) eq_refl), Hl,
+              (IHa _ (fun Hi => Hn (in_or_app _ _ _ (or_intror Hi))) Ha). subst v. reflexivity.
+    + injection H as _ Hd. apply app_nil2 in Hd as [_ Hd]. discriminate Hd.
   - intros ps _ H; exact H.
   - intros e IHe a IHa ps Hn H. destruct ps as [| [t r] ps]; auto.
     rewrite tc_args_cons in *. cbn in Hn.
@@ -313,6 +423,8 @@ Proof.
   intros G1 G2; apply expr_args_ind; cbn; intros; auto.
   - unfold rs_ident. rewrite H; auto.
   - rewrite H, H0; auto; intros y Hy; apply H1; apply in_or_app; auto.
+  - rewrite H, H0, H1; auto; intros y Hy; apply H2; apply in_or_app; auto; right; apply in_or_app; auto.
+  - rewrite H, H0; auto; intros y Hy; apply H1; apply in_or_app; auto.
   - rewrite H, H0; auto; intros y Hy; apply H1; apply in_or_app; auto.
 Qed.
 
@@ -329,6 +441,49 @@ Lemma ck_assign_eq : forall F G d r x e, ck_stmt Q M F G d r (SAssign x e) =
   ((pt_expr F G e ++ match lookup G x with Some (BVar _) | None => [] | Some _ => [DConstAssign] end) ++
    (match lookup G x with None => [DUndef] | Some (BVar _) => [] | Some (BConst _) => [DConstAssign] | Some _ => [DNotVar] end ++ rs_expr G e) ++
    tcs_stmt Q M (q_tc_by_name Q) F G r (SAssign x e), G).
+Proof. reflexivity. Qed.
+Lemma ck_assignidx_eq : forall F G d r x i e, ck_stmt Q M F G d r (SAssignIdx x i e) =
+  ((pt_expr F G e ++ match lookup G x with Some (BVar _) | None => [] | Some _ => [DConstAssign] end ++ pt_expr F G i) ++
+   (rs_ident G x ++ rs_expr G i ++ rs_expr G e) ++ tcs_stmt Q M (q_tc_by_name Q) F G r (SAssignIdx x i e), G).
+Proof. reflexivity. Qed.
+Lemma ck_assignfield_eq : forall F G d r f x e, ck_stmt Q M F G d r (SAssignField f x e) =
+  ((pt_expr F G e ++ match lookup G x with Some (BVar _) | None => [] | Some _ => [DConstAssign] end) ++
+   (rs_ident G x ++ rs_expr G e) ++ tcs_stmt Q M (q_tc_by_name Q) F G r (SAssignField f x e), G).
+Proof. reflexivity. Qed.
+Lemma ck_foreach_eq : forall F G d r a t x e b, ck_stmt Q M F G d r (SForEach a t x e b) =
+  (let (d1, _) := ck_block Q M F (bind (push G) x (BVar t)) (S d) r b in
+   ((pt_type G t ++ art_diag M t a ++ pt_expr F G e) ++ d1 ++ rs_expr G e ++
+    tcs_stmt Q M (q_tc_by_name Q) F G r (SForEach a t x e b), G)).
+Proof. reflexivity. Qed.
+Lemma ck_repeat_eq : forall F G d r b n, ck_stmt Q M F G d r (SRepeat b n) =
+  (let (d1, _) := ck_block Q M F (push G) (S d) r b in
+   (d1 ++ pt_expr F G n ++ rs_expr G n ++ tcs_stmt Q M (q_tc_by_name Q) F G r (SRepeat b n), G)).
+Proof. reflexivity. Qed.
+Lemma ck_dowhile_eq : forall F G d r b c, ck_stmt Q M F G d r (SDoWhile b c) =
+  (let (d1, _) := ck_block Q M F (push G) (S d) r b in
+   (d1 ++ pt_expr F G c ++ rs_expr G c ++ tcs_stmt Q M (q_tc_by_name Q) F G r (SDoWhile b c), G)).
+Proof. reflexivity. Qed.
+Lemma tcs_assignidx_eq : forall deep F G r x i e, tcs_stmt Q M deep F G r (SAssignIdx x i e) =
+  (let (t0, d) := tc_expr Q M F G e in
+   let (ti, di) := tc_expr Q M F G i in
+   let (tx, _) := tc_expr Q M F G (EVar x) in
+   d ++ di ++ unless (vindex ti) DTypeOp ++ unless (vseq tx) DTypeOp ++
+   unless (vassign_ok t0 (match tx with Some (TList t) => Some t | _ => Some TChar end)) DTypeAssign).
+Proof. reflexivity. Qed.
+Lemma tcs_assignfield_eq : forall deep F G r f x e, tcs_stmt Q M deep F G r (SAssignField f x e) =
+  (let (t0, d) := tc_expr Q M F G e in
+   let (tf, df) := tc_expr Q M F G (EField f (EVar x)) in
+   d ++ df ++ unless (match tf with Some _ => true | None => false end) DNoField ++ unless (vassign_ok t0 tf) DTypeAssign).
+Proof. reflexivity. Qed.
+Lemma tcs_foreach_eq : forall deep F G r a t x e b, tcs_stmt Q M deep F G r (SForEach a t x e b) =
+  tc_iter Q M F G e t ++ (if deep then tcs_block Q M deep F (final_scope [(x, BVar t)] b :: G) r b else []).
+Proof. reflexivity. Qed.
+Lemma tcs_repeat_eq : forall deep F G r b n, tcs_stmt Q M deep F G r (SRepeat b n) =
+  (let (tn, d) := tc_expr Q M F G n in d ++ unless (vindex tn) DTypeOp) ++
+  (if deep then tcs_block Q M deep F (final_scope [] b :: G) r b else []).
+Proof. reflexivity. Qed.
+Lemma tcs_dowhile_eq : forall deep F G r b c, tcs_stmt Q M deep F G r (SDoWhile b c) =
+  tc_cond Q M F G c ++ (if deep then tcs_block Q M deep F (final_scope [] b :: G) r b else []).
 Proof. reflexivity. Qed.
 Lemma ck_if_eq : forall F G d r c th el, ck_stmt Q M F G d r (SIf c th el) =
   (let (d1, _) := ck_block Q M F (push G) d r th in
@@ -428,9 +583,14 @@ Proof.
   - rewrite ck_const_eq in H. destruct (insert G x (BConst (lit_ty l))) as [G1 dd] eqn:E. injection H as _ <-. unfold insert in E.
     destruct (in_top G x); injection E as <- _; auto. right; exists x, (BConst (lit_ty l)); split; auto.
   - rewrite ck_assign_eq in H. injection H as _ <-; auto.
+  - rewrite ck_assignidx_eq in H. injection H as _ <-; auto.
+  - rewrite ck_assignfield_eq in H. injection H as _ <-; auto.
   - rewrite ck_if_eq in H. destruct (ck_block Q M F (push G) d r th), (ck_block Q M F (push G) d r el). injection H as _ <-; auto.
   - rewrite ck_while_eq in H. destruct (ck_block Q M F (push G) (S d) r b). injection H as _ <-; auto.
   - rewrite ck_for_eq in H. destruct (ck_block Q M F (bind (push G) x (BVar t)) (S d) r b). injection H as _ <-; auto.
+  - rewrite ck_foreach_eq in H. destruct (ck_block Q M F (bind (push G) x (BVar t)) (S d) r b). injection H as _ <-; auto.
+  - rewrite ck_repeat_eq in H. destruct (ck_block Q M F (push G) (S d) r b). injection H as _ <-; auto.
+  - rewrite ck_dowhile_eq in H. destruct (ck_block Q M F (push G) (S d) r b). injection H as _ <-; auto.
   - cbn in H. injection H as _ <-; auto.
   - cbn in H. injection H as _ <-; auto.
   - rewrite ck_return_eq in H. injection H as _ <-; auto.
@@ -555,6 +715,39 @@ Proof.
     apply app_nil2 in Ht as [-> Hv]. apply unless_nil in Hv. apply vassign_some in Hv as [s [-> Hs]].
     pose proof (proj1 (tc_sound F G) _ _ Hpe Hre Hg E) as Hty. cbn in Hty.
     cbn. rewrite El. unfold assign_chk. rewrite Hty, Hs. reflexivity.
+  - (* SAssignIdx *)
+    intros x i e G d r G' H Hg. rewrite ck_assignidx_eq in H. cbn in Hg. apply andb_true_iff in Hg as [Hgi Hge].
+    injection H as Hd <-. apply app_nil2 in Hd as [Hp Hd]. apply app_nil2 in Hd as [Hr Ht].
+    apply app_nil2 in Hp as [Hpe Hp]. apply app_nil2 in Hp as [Hc Hpi].
+    apply app_nil2 in Hr as [Hx Hr]. apply app_nil2 in Hr as [Hri Hre]. unfold rs_ident in Hx.
+    destruct (lookup G x) as [[tx| | |]|] eqn:El; try discriminate Hx; try discriminate Hc.
+    rewrite tcs_assignidx_eq in Ht. destruct (tc_expr Q M F G e) as [t0 d0] eqn:Ee. destruct (tc_expr Q M F G i) as [ti di] eqn:Ei.
+    cbn [tc_expr] in Ht. rewrite El in Ht.
+    apply app_nil2 in Ht as [-> Ht]. apply app_nil2 in Ht as [-> Ht]. apply app_nil2 in Ht as [H1 Ht]. apply app_nil2 in Ht as [H2 H3].
+    apply unless_nil in H1. apply unless_nil in H2. apply unless_nil in H3. cbn in H2.
+    apply vindex_some in H1 as [t1 [-> Ht1]].
+    pose proof (proj1 (tc_sound F G) _ _ Hpi Hri Hgi Ei) as Hti. cbn in Hti.
+    destruct tx; try discriminate H2; cbn in H3; apply vassign_some in H3 as [s [-> Hs]];
+      pose proof (proj1 (tc_sound F G) _ _ Hpe Hre Hge Ee) as Hte; cbn in Hte;
+      cbn; rewrite El; cbn; unfold indexb_expr, assign_chk; rewrite Hti, Hte, Ht1; cbn; rewrite Hs; reflexivity.
+  - (* SAssignField *)
+    intros f x e G d r G' H Hg. rewrite ck_assignfield_eq in H. cbn in Hg. apply andb_true_iff in Hg as [Hge Hgf].
+    injection H as Hd <-. apply app_nil2 in Hd as [Hp Hd]. apply app_nil2 in Hd as [Hr Ht].
+    apply app_nil2 in Hp as [Hpe Hc]. apply app_nil2 in Hr as [Hx Hre].
+    rewrite tcs_assignfield_eq in Ht. destruct (tc_expr Q M F G e) as [t0 d0] eqn:Ee.
+    destruct (tc_expr Q M F G (EField f (EVar x))) as [tf df] eqn:Ef.
+    apply app_nil2 in Ht as [-> Ht]. apply app_nil2 in Ht as [-> Ht]. apply app_nil2 in Ht as [H1 H2].
+    apply unless_nil in H1. apply unless_nil in H2. destruct tf as [tf|]; [| discriminate H1].
+    apply vassign_some in H2 as [s [-> Hs]].
+    pose proof (proj1 (tc_sound F G) _ _ Hpe Hre Hge Ee) as Hte. cbn in Hte.
+    assert (Hgfe : gd_expr Q M (EField f (EVar x)) = true) by (cbn; exact Hgf).
+    assert (Hrf : rs_expr G (EField f (EVar x)) = []) by (cbn; exact Hx).
+    pose proof (proj1 (tc_sound F G) (EField f (EVar x)) _ eq_refl Hrf Hgfe Ef) as Htf. cbn in Htf.
+    unfold rs_ident in Hx. cbn.
+    destruct (lookup G x) as [[tx| | |]|] eqn:El; try discriminate Hx; try discriminate Hc.
+    destruct tx as [| | | | | | |st]; try discriminate Htf.
+    destruct (field_of M st f) as [[[|] tf']|]; try discriminate Htf. injection Htf as ->.
+    unfold assign_chk. rewrite Hte, Hs. reflexivity.
   - (* SIf *)
     intros c th IHth el IHel G d r G' H Hg. rewrite ck_if_eq in H. cbn in Hg.
     apply andb_true_iff in Hg as [Hg Hgel]. apply andb_true_iff in Hg as [Hgc Hgth].
@@ -606,6 +799,36 @@ Proof.
     cbn [stmt_chk]. rewrite Hpt, Hn, Hf1, Hf2, Hf3, (IHb _ _ _ _ E1 Hgb).
     unfold art_diag in Hpa. unfold genderb. destruct (gender M t) as [g|] eqn:Eg; [| discriminate Hpa].
     apply unless_nil in Hpa. rewrite Hpa. reflexivity.
+  - (* SForEach *)
+    intros a t x e b IHb G d r G' H Hg. rewrite ck_foreach_eq in H. cbn in Hg. apply andb_true_iff in Hg as [Hge Hgb].
+    destruct (ck_block Q M F (bind (push G) x (BVar t)) (S d) r b) as [d1 Gb] eqn:E1. injection H as Hd <-.
+    apply app_nil2 in Hd as [Hp Hd]. apply app_nil2 in Hd as [-> Hd]. apply app_nil2 in Hd as [Hr Ht].
+    apply app_nil2 in Hp as [Hpt Hp]. apply app_nil2 in Hp as [Hpa Hpe]. unfold pt_type in Hpt. apply unless_nil in Hpt.
+    rewrite tcs_foreach_eq in Ht. apply app_nil2 in Ht as [Hit _]. unfold tc_iter in Hit.
+    destruct (tc_expr Q M F G e) as [te de] eqn:Ee. apply app_nil2 in Hit as [-> Hit]. apply unless_nil in Hit.
+    destruct te as [te|]; [| discriminate Hit].
+    pose proof (proj1 (tc_sound F G) _ _ Hpe Hr Hge Ee) as Hte. cbn in Hte.
+    cbn [stmt_chk]. rewrite Hpt, Hte, (IHb _ _ _ _ E1 Hgb).
+    unfold art_diag in Hpa. unfold genderb. destruct (gender M t) as [g|] eqn:Eg; [| discriminate Hpa].
+    apply unless_nil in Hpa. rewrite Hpa.
+    assert (Hi : iter_okb te t = true).
+    { unfold iter_okb. destruct te; try discriminate Hit; apply ty_eqb_eq in Hit; subst; apply ty_eqb_refl. }
+    rewrite Hi. reflexivity.
+  - (* SRepeat *)
+    intros b IHb n G d r G' H Hg. rewrite ck_repeat_eq in H. cbn in Hg. apply andb_true_iff in Hg as [Hgb Hgn].
+    destruct (ck_block Q M F (push G) (S d) r b) as [d1 Gb] eqn:E1. injection H as Hd <-.
+    apply app_nil2 in Hd as [-> Hd]. apply app_nil2 in Hd as [Hp Hd]. apply app_nil2 in Hd as [Hr Ht].
+    rewrite tcs_repeat_eq in Ht. apply app_nil2 in Ht as [Hn _].
+    destruct (tc_expr Q M F G n) as [tn dn] eqn:En. apply app_nil2 in Hn as [-> Hn]. apply unless_nil in Hn.
+    apply vindex_some in Hn as [t1 [-> Ht1]].
+    pose proof (proj1 (tc_sound F G) _ _ Hp Hr Hgn En) as Htn. cbn in Htn.
+    cbn. rewrite (IHb _ _ _ _ E1 Hgb). unfold indexb_expr. rewrite Htn, Ht1. reflexivity.
+  - (* SDoWhile *)
+    intros b IHb c G d r G' H Hg. rewrite ck_dowhile_eq in H. cbn in Hg. apply andb_true_iff in Hg as [Hgb Hgc].
+    destruct (ck_block Q M F (push G) (S d) r b) as [d1 Gb] eqn:E1. injection H as Hd <-.
+    apply app_nil2 in Hd as [-> Hd]. apply app_nil2 in Hd as [Hp Hd]. apply app_nil2 in Hd as [Hr Ht].
+    rewrite tcs_dowhile_eq in Ht. apply app_nil2 in Ht as [Hc _].
+    cbn. rewrite (IHb _ _ _ _ E1 Hgb), (tc_cond_sound _ _ _ Hp Hr Hgc Hc). reflexivity.
   - (* SBreak *)
     intros G d r G' H _. cbn in *. destruct d; [discriminate H | injection H as <-; reflexivity].
   - (* SContinue *)
@@ -804,6 +1027,9 @@ Proof.
   - change (gd_expr patched M (ECast e t)) with (gd_expr patched M e); auto.
   - change (gd_expr patched M (EField f e)) with (gd_expr patched M e && true). rewrite H; reflexivity.
   - change (gd_expr patched M (ECall f a)) with (gd_args patched M a); auto.
+  - change (gd_expr patched M (ESlice l i j)) with (gd_expr patched M l && gd_expr patched M i && gd_expr patched M j).
+    rewrite H, H0, H1; reflexivity.
+  - change (gd_expr patched M (EList e a)) with (gd_expr patched M e && gd_args patched M a). rewrite H, H0; reflexivity.
   - change (gd_args patched M (ACons e a)) with (gd_expr patched M e && gd_args patched M a). rewrite H, H0; reflexivity.
 Qed.
 
@@ -813,12 +1039,17 @@ Proof.
   intros M; destruct (guard_patched_expr M) as [He Ha]; apply stmt_block_ind; intros; try reflexivity.
   - change (gd_stmt patched M (SVar a t x e)) with (gd_expr patched M e && true). rewrite He; reflexivity.
   - change (gd_stmt patched M (SAssign x e)) with (gd_expr patched M e). auto.
+  - change (gd_stmt patched M (SAssignIdx x i e)) with (gd_expr patched M i && gd_expr patched M e). rewrite !He; reflexivity.
+  - change (gd_stmt patched M (SAssignField f x e)) with (gd_expr patched M e && true). rewrite He; reflexivity.
   - change (gd_stmt patched M (SIf c th el)) with (gd_expr patched M c && gd_block patched M th && gd_block patched M el).
     rewrite He, H, H0; reflexivity.
   - change (gd_stmt patched M (SWhile c b)) with (gd_expr patched M c && gd_block patched M b). rewrite He, H; reflexivity.
   - change (gd_stmt patched M (SFor a t x from to step b)) with
       (gd_expr patched M from && gd_expr patched M to && gd_opt patched M step && gd_block patched M b && true).
     rewrite !He, H. destruct step; cbn [gd_opt]; rewrite ?He; reflexivity.
+  - change (gd_stmt patched M (SForEach a t x e b)) with (gd_expr patched M e && gd_block patched M b). rewrite He, H; reflexivity.
+  - change (gd_stmt patched M (SRepeat b n)) with (gd_block patched M b && gd_expr patched M n). rewrite He, H; reflexivity.
+  - change (gd_stmt patched M (SDoWhile b c)) with (gd_block patched M b && gd_expr patched M c). rewrite He, H; reflexivity.
   - destruct e as [e|]; [| reflexivity].
     change (gd_stmt patched M (SReturn (Some e))) with (gd_expr patched M e && true). rewrite He; reflexivity.
   - change (gd_stmt patched M (SBlock b)) with (gd_block patched M b). auto.
